@@ -174,6 +174,8 @@ def _fold_locals(model: Model):
     def run(stmts, env):
         nonlocal found
         for st in stmts:
+            if isinstance(st, ast.AnnAssign) and st.value is not None and isinstance(st.target, ast.Name):
+                st = ast.copy_location(ast.Assign(targets=[st.target], value=st.value), st)  # NAME: T = value  is  NAME = value
             if isinstance(st, ast.Assign) and len(st.targets) == 1:
                 tg = st.targets[0]
                 if isinstance(tg, ast.Name) and tg.id == "LOCALS" and isinstance(st.value, ast.Dict):
